@@ -113,6 +113,17 @@ def run_live(desc):
                     ex.fill(b["betId"], round(b["priceSize"]["size"] * rng.choice((0.1, 0.25, 1 / 3, 0.4)), 2), price=px)
             if rng.random() < 0.2 and b["sizeRemaining"] > 0:
                 ex.lapse(b["betId"])
+            elif rng.random() < 0.3 and b["sizeRemaining"] > 0:
+                # the bet is replaced at another price; the replacement (new bet id, same reference) is then partly filled
+                w.snapshot()
+                try:
+                    m.replace_order(o, new_price=round(b["priceSize"]["price"] + 0.5, 2))
+                except Exception:  # noqa: BLE001
+                    pass
+                w.executor.run_all()
+                nb = [x for x in ex.bets.values() if x["customerOrderRef"] == o.customer_order_ref and x["betId"] != b["betId"]]
+                if nb and nb[-1]["sizeRemaining"] > 0:
+                    ex.fill(nb[-1]["betId"], round(nb[-1]["sizeRemaining"] * rng.choice((0.3, 1.0)), 2))
         w.snapshot()
         mb = m.market_book
         by_sel = {}
